@@ -279,7 +279,11 @@ impl Family for ScalingFamily {
     }
     fn describe(&self, idx: u64) -> Value {
         let nc = self.cfgs.len() as u64;
-        json!({"construct": crate::alphabet::scaling_input((idx / nc) as usize, 3), "sizes": self.sizes, "cfg": self.cfgs[(idx % nc) as usize]})
+        let mut construct = crate::alphabet::scaling_input((idx / nc) as usize, 3);
+        if construct.len() > 300 {
+            construct = format!("...{}", &construct[construct.len() - 300..]);
+        }
+        json!({"construct": construct, "kind": idx / nc, "sizes": self.sizes, "cfg": self.cfgs[(idx % nc) as usize]})
     }
     fn horizon_ms(&self) -> u64 {
         120_000
@@ -1595,6 +1599,11 @@ pub fn replay(case: &Value, ctx: &mut Ctx) -> bool {
         "c01" => {
             let out = ctx.fmt(&c, &input);
             o::c01(&input, &out, &c, ctx);
+        }
+        "c04" if case["kind"].is_u64() && case["sizes"].is_array() => {
+            // a crash / hang met by the scaling family
+            let sizes: Vec<usize> = case["sizes"].as_array().unwrap().iter().map(|v| v.as_u64().unwrap_or(1) as usize).collect();
+            o::c04_scaling(case["kind"].as_u64().unwrap() as usize, &c, &sizes, ctx);
         }
         "c04" => {
             let _ = ctx.fmt(&c, &input);
